@@ -216,7 +216,7 @@ func runC18(p *Program, e *Engine, r *Result, tier string) {
 	if createFn != nil {
 		for _, v := range w.Visits {
 			call, ok := v.Instr.(*ssa.Call)
-			if !ok || v.Ctx.Parent != nil || v.Ctx.calleeOf(&call.Call) != createFn {
+			if !ok || v.Ctx.calleeOf(&call.Call) != createFn {
 				continue
 			}
 			g, _ := v.Cond.everyConj(func(c Conj) bool {
